@@ -225,7 +225,7 @@ func newEndpointWith(kind string, pool int, plugin string) *endpoint {
 	if err != nil {
 		panic(err)
 	}
-	ep := &endpoint{kind: kind, pool: pool, plugin: plugin, server: srv, a: srv.Client(4 * time.Second), b: srv.Client(4 * time.Second), pa: &proxy{}, pb: &proxy{}, service: s}
+	ep := &endpoint{kind: kind, pool: pool, plugin: plugin, server: srv, a: srv.Client(20 * time.Second), b: srv.Client(20 * time.Second), pa: &proxy{}, pb: &proxy{}, service: s}
 	ep.a.UseService(ep.pa)
 	ep.b.UseService(ep.pb)
 	return ep
